@@ -60,7 +60,17 @@ sys.path.insert(0, %(harness)r)
 import boot; boot.boot()
 from calmjs.parse.parsers import es5
 first = %(first)r
-es5.Parser(with_comments=first)            # generates lextab / yacctab in this scratch copy
+if first == 'poison':
+    # the first parser of the process (it generates and loads the modules) fails on broken literals before anything else
+    for _ in range(3):          # the parser that generates the modules, the first ones that load them
+        p0 = es5.Parser()
+        for bad in ('var re = /abc', 'x = /[a-z/g', 'y = "unterminated', 'z = 1 /* open'):
+            try:
+                p0.parse(bad)
+            except Exception:
+                pass
+else:
+    es5.Parser(with_comments=first)        # generates lextab / yacctab in this scratch copy
 import treedump, proto
 out = []
 for text in json.load(open(%(probes)r)):
@@ -86,17 +96,20 @@ def generation_order_probe(texts):
     try:
         json.dump(probes, open(pf, 'w'))
         outs = {}
-        for first in (False, True):
+        for first in (False, True, 'poison'):
             code = GEN_ORDER_CHILD % dict(harness=os.path.dirname(os.path.dirname(os.path.abspath(__file__))), first=first,
                                           probes=pf)
             r = subprocess.run([sys.executable, '-c', code], stdout=subprocess.PIPE, stderr=subprocess.PIPE, timeout=600)
             if r.returncode != 0:
                 return dict(error='child failed', first=first, stderr=r.stderr.decode('utf8', 'replace')[-600:])
             outs[first] = json.loads(r.stdout.decode('utf8'))
-        for i, (a, b) in enumerate(zip(outs[False], outs[True])):
+        for i, (a, b, c) in enumerate(zip(outs[False], outs[True], outs['poison'])):
             if a != b:
                 return dict(text=probes[i // 2], with_comments=bool(i % 2), generated_by_default_parser=a,
                             generated_by_comment_parser=b)
+            if a != c:
+                return dict(text=probes[i // 2], with_comments=bool(i % 2), fresh_process=a,
+                            process_whose_first_parser_failed_on_broken_literals=c)
         return None
     finally:
         os.unlink(pf)
